@@ -124,6 +124,18 @@ def oracle(case, est=None):
         return f'{len(names_out)} names for {Xt.shape[1]} columns'
     if ep and names_out[0] != names_in[0]:
         return 'episode column name changed'
+    # the episode_feature override only adds / removes the episode name; every other name still labels its column
+    body = names_out[e:]
+    for call in (True, False):
+        try:
+            nm = list(est.get_feature_names_out(episode_feature=call))
+        except Exception as ex:
+            return f'get_feature_names_out(episode_feature={call}) raised {type(ex).__name__}: {ex}'
+        if (len(nm) != len(body) + (1 if call else 0)) or nm[(1 if call else 0):] != body:
+            return (f'get_feature_names_out(episode_feature={call}) on an estimator fitted with episode_feature={ep}: the '
+                    f'names {nm} do not label the lifted columns {body}')
+        if call and not (nm[0] == 'ep' or (ep and nm[0] == names_in[0])):
+            return f'episode name missing with episode_feature=True: {nm[:2]}'
     eps, eps_t = st.episodes(X, ep), st.episodes(Xt, ep)
     for l, Xe in eps.items():
         if l not in eps_t:
